@@ -509,3 +509,59 @@ def arms_units(prop):
     u.append(Unit(prop, TARGET.format("get_registered_type(typehint)"), reg_setup, reg_post, reg_raises, label="registered-type", expect_cover=("return", "raise:ValueError"),
                   trusted=["RegisteredType.serializer/deserializer/is_value_of_type as registered (C20 units)"]))
     return u
+
+
+# ============================================================================ dataclass-like
+def dc_setup(ctx):
+    prev_kind = ["none", "namespace", "dict"][ctx.choose(3, "prev_val")]
+    mode = ["parse", "serialize", "instantiate"][ctx.choose(3, "mode")]
+    val_kind = ["dict", "namespace", "nested-arg", "other"][ctx.choose(4, "val-kind")] if mode == "parse" else "namespace"
+    prev = {"none": None, "namespace": Rec("Namespace", attrs={"tag": "previous value"}), "dict": {"a": 5}}[prev_kind]
+    given_kwargs = {"fail_untyped": True}
+    snapshot = dict(given_kwargs)
+    parsed = Rec("Namespace", attrs={"tag": "parsed by the class parser"})
+    seen_kwargs = []
+
+    def get_class_parser(c, a, k):
+        seen_kwargs.append(dict(k.get("sub_add_kwargs") or {}))
+        return Rec("ArgumentParser", methods={
+            "parse_object": lambda c2, s2, a2, k2: (c2.event("parse_object", a2[0], dict(k2)), parsed)[1],
+            "parse_args": lambda c2, s2, a2, k2: (c2.event("parse_args", a2[0], dict(k2)), parsed)[1],
+            "instantiate_classes": lambda c2, s2, a2, k2: {"a": 1},
+            "dump": lambda c2, s2, a2, k2: "a: 1"})
+
+    ctx.classes.add("NestedArg", ["tuple"])
+    val = {"dict": {"a": 1}, "namespace": Rec("Namespace", attrs={"tag": "value"}, methods={"get": lambda c, s_, a, k: None}), "nested-arg": Rec("NestedArg", attrs={"key": "a", "val": "5"}), "other": 7}[val_kind]
+    calls = {"ActionTypeHint.get_class_parser": get_class_parser, UNEXPECTED: raise_unexpected, "is_subclass_spec": lambda c, a, k: False, "sub_defaults.get": lambda c, a, k: False,
+             "load_value": lambda c, a, k: {"a": 1}, "dump_kwargs.get": lambda c, a, k: {}, "typehint": lambda c, a, k: Rec("dataclass instance", attrs=dict(k))}
+    consts = {"Namespace": ClassRef("Namespace"), "NestedArg": ClassRef("NestedArg")}
+    env = {"val": val, "typehint": Rec("DataclassType"), "prev_val": prev, "sub_add_kwargs": given_kwargs, "instantiate_classes": mode == "instantiate", "serialize": mode == "serialize", "list_item": False}
+    return Setup(env=env, calls=calls, consts=consts, data=dict(prev_kind=prev_kind, prev=prev, mode=mode, val_kind=val_kind, given=given_kwargs, snapshot=snapshot, seen=seen_kwargs, parsed=parsed, val=val))
+
+
+def dc_post(ctx, st, result):
+    d = st.data
+    tag = f"[dataclass:{d['mode']}<-{d['val_kind']},prev:{d['prev_kind']}]"
+    ctx.oblige("frame", "the-action's-own-sub_add_kwargs-dict-is-not-modified(nothing of this call is remembered for the next one)" + tag, d["given"] == d["snapshot"],
+               note="the previous value is written into the dict that belongs to the action, so a later parse on the same parser starts from it")
+    if d["prev_kind"] != "none":
+        ctx.oblige("post", "the-class-parser-is-built-with-the-previous-value-as-default" + tag, len(d["seen"]) == 1 and d["seen"][0].get("default") is d["prev"])
+    else:
+        ctx.oblige("post", "without-a-previous-value-the-class-parser-gets-no-default" + tag, len(d["seen"]) == 1 and "default" not in d["seen"][0])
+    if d["mode"] == "parse":
+        out = d["env"].lookup("val")
+        ctx.oblige("post", "accept-iff:only-mappings-and-dotted-sub-options;validated-by-the-parser-of-that-very-class" + tag, d["val_kind"] in ("dict", "namespace", "nested-arg") and out is d["parsed"])
+        ev = [e for e in ctx.events if e[0] in ("parse_object", "parse_args")]
+        ctx.oblige("post", "the-validating-entry-point-of-the-class-parser-is-used-exactly-once" + tag, len(ev) == 1)
+
+
+def dc_raises(ctx, st, exc):
+    d = st.data
+    tag = f"[dataclass:{d['mode']}<-{d['val_kind']},prev:{d['prev_kind']}]"
+    ctx.oblige("raises", "rejected=>the-value-is-neither-a-mapping-nor-a-dotted-sub-option" + tag, exc.origin == UNEXPECTED and d["val_kind"] == "other")
+    ctx.oblige("frame", "the-action's-own-sub_add_kwargs-dict-is-not-modified" + tag, d["given"] == d["snapshot"])
+
+
+def dataclass_unit(prop):
+    return Unit(prop, TARGET.format("is_dataclass_like(typehint)"), dc_setup, dc_post, dc_raises, label="dataclass", expect_cover=("return", "raise:ValueError"), replayer="replayers.c09:replay_dataclass_history",
+                trusted=["ActionTypeHint.get_class_parser(typehint, sub_add_kwargs=...) builds a fresh parser for that class", "parser.parse_object / parse_args validate against that class"])
